@@ -549,7 +549,18 @@ class Inliner:
                     rep = self.expand(st.value, caller, None, False)
                     if rep is not None:
                         rep, rv = self._result(rep)
-                        rep = rep + [ast.copy_location(ast.Assign(targets=st.targets, value=rv), st)]
+                        tg = st.targets[0]
+                        import re as _re
+                        if isinstance(tg, ast.Tuple) and isinstance(rv, ast.Tuple) and len(tg.elts) == len(rv.elts) and \
+                                all(isinstance(t, ast.Name) for t in tg.elts) and \
+                                all(isinstance(v, ast.Name) and _re.search(r'__i\d+$', v.id) for v in rv.elts) and \
+                                len({v.id for v in rv.elts}) == len(rv.elts) and \
+                                not any(isinstance(n, ast.Name) and n.id in {t.id for t in tg.elts} for r_ in rep for n in ast.walk(r_)):
+                            # `a, b = helper(..)` with `return x, y` of two helper locals: the locals ARE a and b
+                            m_ = ast.Module(body=rep, type_ignores=[])
+                            rep = _Rename({v.id: t.id for v, t in zip(rv.elts, tg.elts)}).visit(m_).body
+                        else:
+                            rep = rep + [ast.copy_location(ast.Assign(targets=st.targets, value=rv), st)]
                 elif isinstance(st, ast.Return) and isinstance(st.value, ast.Call):
                     rep = self.expand(st.value, caller, None, False)
                     if rep is not None:
